@@ -149,7 +149,12 @@ func (self *DbImpl) Update(ctx MutateContext, fn func(ctx MutateContext) error) 
 
 		defer ctx.setTx(nil)
 
-		return self.db.Update(func(tx *bbolt.Tx) error {
+		// Actions registered by a transaction which is rolled back must not stay on the context: the caller may use
+		// it for another transaction (a retry), with which they would run - the commit actions of work that never
+		// took place, and a failing pre-commit action again and again
+		preCommitCount, commitCount := ctx.actionCounts()
+
+		err := self.db.Update(func(tx *bbolt.Tx) error {
 			ctx.setTx(tx)
 			if err := fn(ctx); err != nil {
 				return err
@@ -169,6 +174,10 @@ func (self *DbImpl) Update(ctx MutateContext, fn func(ctx MutateContext) error) 
 
 			return nil
 		})
+		if err != nil {
+			ctx.truncateActions(preCommitCount, commitCount)
+		}
+		return err
 	}
 
 	return fn(ctx)
@@ -189,7 +198,7 @@ func (self *DbImpl) Batch(ctx MutateContext, fn func(ctx MutateContext) error) e
 		// Actions registered by a rolled back attempt must not survive into the next attempt.
 		preCommitCount, commitCount := ctx.actionCounts()
 
-		return self.db.Batch(func(tx *bbolt.Tx) error {
+		err := self.db.Batch(func(tx *bbolt.Tx) error {
 			ctx.truncateActions(preCommitCount, commitCount)
 			ctx.setTx(tx)
 			if err := fn(ctx); err != nil {
@@ -210,6 +219,11 @@ func (self *DbImpl) Batch(ctx MutateContext, fn func(ctx MutateContext) error) e
 
 			return nil
 		})
+		if err != nil {
+			// the same for the actions of a batch which failed for good (see Update)
+			ctx.truncateActions(preCommitCount, commitCount)
+		}
+		return err
 	}
 
 	return fn(ctx)
